@@ -23,6 +23,9 @@ from . import libops
 
 PROP = 'C15'
 LEVEL = 'exploration'
+COMPONENTS = {
+    'real': ['pgradd end to end (loaders, schemes, decomposition, estimates, correlations, merging, writer)', 'RDKit', 'numpy', 'scipy', 'PyYAML', 'pmutt', 'the real shipped data files and two fixture libraries on the real file system'],
+    'stubs': ['scheduler (seeded interleaving of 1-3 logical clients)', 'pass-through open() seam on Library/Scheme with a fault plan', 'process restart / fresh process = fork of a pristine zygote (one per history, one per reference chain)', 'environment variable pgradd_DATA_DIR set by the history']}
 ASSUMPTIONS = [
     'fork() of a process that only imported pgradd is equivalent to a new '
     'interpreter (re-validated on a sample of keys in genuinely new '
